@@ -257,64 +257,103 @@ def tightFilterRows (f : PixFmt) (flt : TFilter) (w rows : Nat) (d : Bytes) : Op
     (readTPixels tp (w * rows) d).map fun (dpx, _) =>
       (gradRows (f.rMax, f.gMax, f.bMax) w rows (dpx.map f.comps) []).map f.ofComps
 
-def handleTight (s : St) (x y w h : Nat) (bs : Bytes) : Res (St × Bytes) := do
-  let f := s.fmt
-  let bitsBPP := f.bpp
-  if x + w > s.fb.w ∨ y + h > s.fb.h then .no else
-  let (ctl, bs) ← ofOpt (readU8 bs)
-  let hi := ctl / 16
-  let noz := hi % 4 / 2 = 1 ∧ hi / 8 = 1            -- (comp_ctl & 0x0A) == 0x0A
-  let hi := if noz then hi % 2 + (hi / 4 % 2) * 4 else hi
+/-- the filter announced by the filter-id byte: (filter, bits per transmitted pixel, rest) -/
+def tightFilterOf (f : PixFmt) (w fid : Nat) (bs : Bytes) : Res (TFilter × Nat × Bytes) :=
   let tp := f.tpix
-  if hi = tightFill then
-    let (c, bs) ← ofOpt (readTPixel tp bs)
-    pure ({ s with fb := fillRectangle s.fb x y w h c }, bs)
-  else if hi = tightJpeg then
-    if bitsBPP = 8 then .no else .unk "tight: JPEG"
-  else if hi > tightMaxSubencoding then .no
+  let cutBits := if tp.size = 3 ∧ f.bpp = 32 then 24 else f.bpp
+  if fid = tightFilterCopy then .ok (.copy, cutBits, bs)
+  else if fid = tightFilterPalette then
+    match readU8 bs with
+    | none => .no
+    | some (nc, bs) =>
+      if nc + 1 < 2 then .no else
+      match readTPixels tp (nc + 1) bs with
+      | none => .no
+      | some (pal, bs) => .ok (.palette pal, if nc + 1 = 2 then 1 else 8, bs)
+  else if fid = tightFilterGradient then
+    -- fixed code (9e7946d): rows wider than the row buffers are refused
+    if w * 3 > tightThisRowCells then .no else .ok (.gradient, cutBits, bs)
+  else .no
+
+/-- the data block of a basic-compression rectangle: `h` rows of `(w·bits+7)/8` bytes.
+Result: the bytes, the decompressor use `(stream id, compressed chunk)` if any, the rest. -/
+def tightData (f : PixFmt) (infl : Nat → Bytes → Option Bytes) (noz : Bool) (sid bits w h : Nat) (bs : Bytes) :
+    Res (Bytes × Option (Nat × Bytes) × Bytes) :=
+  let rowSize := (w * bits + 7) / 8
+  if h * rowSize < tightMinToCompress then
+    match takeN (h * rowSize) bs with
+    | none => .no
+    | some (d, bs) => .ok (d, none, bs)
   else
-    -- filter
-    let (fid, bs) ← (if hi / 4 % 2 = 1 then ofOpt (readU8 bs) else pure (0, bs))
-    let cutBits := if tp.size = 3 ∧ bitsBPP = 32 then 24 else bitsBPP
-    let (flt, bits, bs) ←
-      (if fid = tightFilterCopy then pure (TFilter.copy, cutBits, bs)
-       else if fid = tightFilterPalette then do
-         let (nc, bs) ← ofOpt (readU8 bs)
-         let k := nc + 1
-         if k < 2 then .no else
-         let (pal, bs) ← ofOpt (readTPixels tp k bs)
-         pure (TFilter.palette pal, if k = 2 then 1 else 8, bs)
-       else if fid = tightFilterGradient then
-         -- fixed code (fixes/C08-tight-gradient-width.diff): rows wider than the row buffers are refused
-         (if w * 3 > tightThisRowCells then .no else pure (TFilter.gradient, cutBits, bs))
-       else .no : Res (TFilter × Nat × Bytes))
-    let rowSize := (w * bits + 7) / 8
-    let paint := fun (s : St) (rows : Nat) (d : Bytes) (bs : Bytes) => (
-      match tightFilterRows f flt w rows d with
-      | some ps => pure ({ s with fb := writeDirect s.fb x y w rows ps }, bs)
-      | none => .unk "tight: palette index outside the transmitted palette (stale entry)" : Res (St × Bytes))
-    if h * rowSize < tightMinToCompress then do
-      let (d, bs) ← ofOpt (takeN (h * rowSize) bs)
-      paint s h d bs
-    else do
-      let (len, bs) ← ofOpt (compactLenC bs)
+    match compactLenC bs with
+    | none => .no
+    | some (len, bs) =>
       if len = 0 then .no else
       if noz then
-        if len > rfbBufferSize then .no else
-        -- fixed code (fixes/C08-tight-nozlib-length.diff)
-        if len ≠ h * rowSize then .no else do
-        let (d, bs) ← ofOpt (takeN len bs)
-        paint s h d bs
+        if len > rfbBufferSize then .no
+        -- fixed code (ca36572): exactly `rh·rowSize` bytes must have been sent
+        else if len ≠ h * rowSize then .no else
+        match takeN len bs with
+        | none => .no
+        | some (d, bs) => .ok (d, none, bs)
       else
-        let bufferSize := rfbBufferSize * bits / (bits + bitsBPP) / 4 * 4
-        if rowSize > bufferSize then .no else do
-        let (z, bs) ← ofOpt (takeN len bs)
-        let (plain, s) ← s.inflate (hi % 4) z
-        let rows := plain.length / rowSize
-        -- fixed code (fixes/C08-tight-row-overrun.diff): more rows than the rectangle has → FALSE
-        if rows > h then .no else
-        if rows ≠ h then .no else
-        paint s h plain bs
+        if rowSize > rfbBufferSize * bits / (bits + f.bpp) / 4 * 4 then .no else
+        match takeN len bs with
+        | none => .no
+        | some (z, bs) =>
+          match infl sid z with
+          | none => .unk "no decompressor oracle entry"
+          | some plain =>
+            -- fixed code (0669b47): more (or fewer) rows than the rectangle has → FALSE
+            if plain.length / rowSize ≠ h then .no else .ok (plain, some (sid, z), bs)
+
+/-- `HandleTightBPP` up to the pixels it paints (row-major, `w·h`); `infl id chunk` = what zlib
+stream `id` makes of the chunk (parameter).  The low four bits of the control byte (stream resets)
+concern only the decompressor and are its business here as in `Spec.decodeTight`. -/
+def tightDecode (f : PixFmt) (infl : Nat → Bytes → Option Bytes) (w h : Nat) :
+    Bytes → Res (List Pixel × Option (Nat × Bytes) × Bytes)
+  | [] => .no
+  | c :: bs =>
+    let hi0 := c.toNat / 16
+    let noz := decide (hi0 % 4 / 2 = 1 ∧ hi0 / 8 = 1)            -- (comp_ctl & 0x0A) == 0x0A
+    let hi := if noz then hi0 % 2 + (hi0 / 4 % 2) * 4 else hi0
+    let tp := f.tpix
+    if hi = tightFill then
+      match readTPixel tp bs with
+      | none => .no
+      | some (p, bs) => .ok (List.replicate (w * h) p, none, bs)
+    else if hi = tightJpeg then (if f.bpp = 8 then .no else .unk "tight: JPEG")
+    else if hi > tightMaxSubencoding then .no
+    else
+      match (if hi / 4 % 2 = 1 then readU8 bs else some (0, bs)) with
+      | none => .no
+      | some (fid, bs) =>
+        match tightFilterOf f w fid bs with
+        | .no => .no
+        | .unk e => .unk e
+        | .ok (flt, bits, bs) =>
+          match tightData f infl noz (hi % 4) bits w h bs with
+          | .no => .no
+          | .unk e => .unk e
+          | .ok (d, used, bs) =>
+            match tightFilterRows f flt w h d with
+            | none => .unk "tight: palette index outside the transmitted palette (stale entry)"
+            | some ps => .ok (ps, used, bs)
+
+def handleTight (s : St) (x y w h : Nat) (bs : Bytes) : Res (St × Bytes) :=
+  if x + w > s.fb.w ∨ y + h > s.fb.h then .no else
+  match tightDecode s.fmt (fun id z => (popZ id z s.zq).map (·.1)) w h bs with
+  | .no => .no
+  | .unk e => .unk e
+  | .ok (ps, used, rest) =>
+    let s := match used with
+      | none => s
+      | some (id, z) =>
+        match popZ id z s.zq with
+        | some (_, q) => { s with zq := q }
+        | none => s
+    -- Fill goes through GotFillRect, the filters write directly: same cells (the rectangle is inside)
+    .ok ({ s with fb := writeDirect s.fb x y w h ps }, rest)
 
 /-! ## cursor shape (cursor.c) -/
 
